@@ -1277,6 +1277,39 @@ void execute_assignment(StatementExecutor *executor, Interpreter &interpreter,
             }
         }
 
+        // 右辺が構造体配列の要素の場合: pt1 = oa[1]
+        // 型付き評価は構造体配列の要素を数値 0 として返すため、下の一般処理
+        // では何もコピーされない。要素は "oa[1]" という名前の構造体変数として
+        // 存在するので、oa[k] = oa[j] と同じく名前で解決し、o2 = o1 と同じ
+        // 経路（assign_variable に構造体の TypedValue を渡す）でコピーする。
+        // 添字式はここで一度だけ評価される
+        if (target_var && target_var->is_struct && node->right &&
+            node->right->node_type == ASTNodeType::AST_ARRAY_REF) {
+            Variable *right_array = interpreter.find_variable(
+                interpreter.extract_array_name(node->right.get()));
+            if (right_array && right_array->is_array &&
+                (right_array->is_struct || right_array->type == TYPE_STRUCT) &&
+                !right_array->is_pointer && !right_array->is_reference) {
+                std::string right_element_name =
+                    interpreter.extract_array_element_name(node->right.get());
+                Variable *right_var =
+                    interpreter.find_variable(right_element_name);
+                if (right_var && right_var->is_struct) {
+                    // 要素の struct_members を個別変数（oa[1].in.a など）の
+                    // 最新値に合わせてからコピーする
+                    interpreter.sync_struct_members_from_direct_access(
+                        right_element_name);
+                    right_var = interpreter.find_variable(right_element_name);
+                    TypedValue element_value(
+                        *right_var,
+                        InferredType(TYPE_STRUCT, right_var->struct_type_name));
+                    interpreter.assign_variable(target_name, element_value,
+                                                TYPE_UNKNOWN, false);
+                    return;
+                }
+            }
+        }
+
         if (node->right &&
             node->right->node_type == ASTNodeType::AST_FUNC_CALL) {
             try {
